@@ -71,18 +71,19 @@ def oracle (k : KState) (hist : List KEv) (items : List TItem) : String :=
   let simple := k.layout.cfg.layers.length == 1 &&
     k.layout.cfg.layers.all fun tbl => tbl.all fun e => e.1.1 != 0 || simpleAct e.2
   -- walk history and trace together
-  let rec go : List KEv → List TItem → Nat → List Nat → List (Nat × Nat) → Option String
-    -- args: history, remaining items, vt, OS-down keys, physically down keys with press time
-    | [], _, _, _, _ => none
-    | e :: rest, items, vt, down, phys =>
+  let rec go : List KEv → List TItem → Nat → List Nat → List (Nat × Nat) → Nat → Option String
+    -- args: history, remaining items, vt, OS-down keys, physically down keys with press time,
+    -- time of the last physical release (+1; 0 = none yet)
+    | [], _, _, _, _, _ => none
+    | e :: rest, items, vt, down, phys, lastRel =>
       match e with
       | .tick n =>
         let vt' := vt + n
         let (mine, later) := items.span fun it => it.vt ≤ vt' && !it.isRepeat
         let down' := mine.foldl (fun d it => it.evs.foldl applyEv d) down
-        go rest later vt' down' phys
-      | .press c => go rest items vt down (if c.1 == 0 then (c.2, vt) :: phys else phys)
-      | .release c => go rest items vt down (phys.filter (·.1 != c.2))
+        go rest later vt' down' phys lastRel
+      | .press c => go rest items vt down (if c.1 == 0 then (c.2, vt) :: phys else phys) lastRel
+      | .release c => go rest items vt down (phys.filter (·.1 != c.2)) (vt + 1)
       | .rep y =>
         match items with
         | it :: later =>
@@ -106,16 +107,16 @@ def oracle (k : KState) (hist : List KEv) (items : List TItem) : String :=
               match (k.layout.cfg.layers[0]!).find? (·.1 == (0, y)) with
               | some (_, a) =>
                 let outs := keyOutputs k.customs y a
-                match outs.reverse.find? (down.contains ·) with
+                match (if outs.any (fun c => k.ignoreMin ≤ c && c ≤ k.ignoreMax) then none else outs.reverse.find? (down.contains ·)) with
                 | some want =>
-                  if emitted == [s!"d{want}"] then go rest later vt down phys
+                  if emitted == [s!"d{want}"] then go rest later vt down phys lastRel
                   else some s!"repeat at {vt} for held key {y}: expected d{want}, got {emitted}"
-                | none => go rest later vt down phys
-              | none => go rest later vt down phys
-            else go rest later vt down phys
+                | none => go rest later vt down phys lastRel
+              | none => go rest later vt down phys lastRel
+            else go rest later vt down phys lastRel
         | [] => some s!"repeat at {vt}: trace ended"
-      | _ => go rest items vt down phys
-  match go hist items 0 [] [] with
+      | _ => go rest items vt down phys lastRel
+  match go hist items 0 [] [] 0 with
   | none => "ok"
   | some e => s!"fail {e}"
 
